@@ -12,11 +12,12 @@ shapes mirrored by coq/theories/Model/Alias.v:
                       if inplace and done:  self.variables._relabel(mapping); return self
                       elif done:            new = self.copy(); new._info = copy.deepcopy(new.info);
                                             return new.relabel_variables(mapping, inplace=True)
-                      elif inplace:         old_hook = self._result_hook
+                      elif inplace:         mapping = dict(mapping); old_hook = self._result_hook
                                             def new_hook(future): sampleset = old_hook(future); sampleset.resolve();
                                                                   return sampleset.relabel_variables(mapping, inplace=<A>)
                                             self._result_hook = new_hook; return self
-                      else:                 def hook(sampleset): sampleset.resolve();
+                      else:                 mapping = dict(mapping)
+                                            def hook(sampleset): sampleset.resolve();
                                                                  return sampleset.relabel_variables(mapping, inplace=<B>)
                                             return self.from_future(self, hook)
   change_vartype:     if not inplace: new = self.copy(); new._info = copy.deepcopy(new.info);
@@ -137,6 +138,10 @@ def main():
     fn = meth["relabel_variables"]
     expect([a.arg for a in fn.args.args] == ["self", "mapping", "inplace"], fn, "parameters (self, mapping, inplace)", w)
     relabel_default = default_of(fn, "inplace", w)
+    # the resolved branches use the mapping immediately; neither branch may assign to it elsewhere
+    assigns = [n for n in ast.walk(fn) if isinstance(n, (ast.Assign, ast.AugAssign, ast.AnnAssign))
+               and any(isinstance(t, ast.Name) and t.id == "mapping" for t in (n.targets if isinstance(n, ast.Assign) else [n.target]))]
+    expect(len(assigns) == 2, fn, "exactly the two `mapping = dict(mapping)` assignments", w)
     b = body_nodoc(fn)
     expect(len(b) == 2 and norm(b[0]) == "done=self.done()" and isinstance(b[1], ast.If), fn, "`done = self.done()` and one if/elif chain", w)
     i1 = b[1]
@@ -149,7 +154,10 @@ def main():
            "`elif done: new = self.copy(); new._info = copy.deepcopy(new.info); return new.relabel_variables(mapping, inplace=True)`", w)
     expect(len(i2.orelse) == 1 and isinstance(i2.orelse[0], ast.If), i2, "an elif", w)
     i3 = i2.orelse[0]
-    expect(norm(i3.test) == "inplace" and len(i3.body) == 4, i3, "`elif inplace:` with four statements", w)
+    expect(norm(i3.test) == "inplace" and len(i3.body) == 5, i3, "`elif inplace:` with five statements", w)
+    # the mapping is copied at call time, so the hook cannot see later changes to the caller's dict
+    expect(norm(i3.body[0]) == "mapping=dict(mapping)", i3.body[0], "`mapping = dict(mapping)`", w)
+    i3.body = i3.body[1:]
     expect(norm(i3.body[0]) == "old_hook=self._result_hook", i3.body[0], "`old_hook = self._result_hook`", w)
     nh = hook_def(i3.body[1], "future", "relabel_variables", w)
     expect(nh.name == "new_hook" and len(nh.body) == 3 and norm(nh.body[0]) == "sampleset=old_hook(future)"
@@ -162,7 +170,8 @@ def main():
     expect(norm(i3.body[2]) == "self._result_hook=new_hook" and norm(i3.body[3]) == "returnself", i3.body[2],
            "`self._result_hook = new_hook; return self`", w)
     e = i3.orelse
-    expect(len(e) == 2, i3, "an else branch with a hook and a return", w)
+    expect(len(e) == 3 and norm(e[0]) == "mapping=dict(mapping)", i3, "an else branch `mapping = dict(mapping)`, a hook and a return", w)
+    e = e[1:]
     hk = hook_def(e[0], "sampleset", "relabel_variables", w)
     expect(hk.name == "hook" and len(hk.body) == 2 and norm(hk.body[0]) == "sampleset.resolve()", hk, "`sampleset.resolve(); return ...`", w)
     r = hk.body[1]
@@ -171,6 +180,7 @@ def main():
            "`return sampleset.relabel_variables(mapping, inplace=<const>)`", w)
     B = bool_const(r.value.keywords[0].value, w)
     expect(norm(e[1]) == "returnself.from_future(self,hook)", e[1], "`return self.from_future(self, hook)`", w)
+
 
     # ---- change_vartype (head)
     w = "SampleSet.change_vartype"
@@ -210,7 +220,10 @@ def main():
              f"Definition gen_change_vartype_inplace_default : bool := {cb(chvt_default)}.",
              "(* resolve() passes the hook result's own record object on (no copy); copy() copies the record *)",
              "Definition gen_resolve_shares_record : bool := true.",
-             "Definition gen_copy_copies_record : bool := true.", ""]
+             "Definition gen_copy_copies_record : bool := true.",
+             "(* both branches taken for an unresolved receiver start with `mapping = dict(mapping)`: the hook keeps the mapping",
+             "   as it was at call time *)",
+             "Definition gen_relabel_pending_copies_mapping : bool := true.", ""]
     os.makedirs(out, exist_ok=True)
     p = os.path.join(out, "Gen_Hooks.v")
     new = "\n".join(lines)
